@@ -133,14 +133,14 @@ impl Rec {
 }
 impl Visitor for Rec {
     fn visit_block_header(&mut self, h: &bsl::BlockHeader) -> ControlFlow<()> {
-        self.evs.push(format!("hdr({})", fmt::header_f(&self.b, h)));
+        self.evs.push(format!("hdr({})", fmt::header_fh(&self.b, h)));
         self.brk()
     }
     fn visit_block_begin(&mut self, n: usize) {
         self.evs.push(format!("bb({})", n));
     }
     fn visit_transaction(&mut self, tx: &bsl::Transaction) -> ControlFlow<()> {
-        self.evs.push(format!("tx({})", fmt::tx_f(&self.b, tx)));
+        self.evs.push(format!("tx({})", fmt::tx_fh(&self.b, tx)));
         self.brk()
     }
     fn visit_tx_ins(&mut self, n: usize) {
